@@ -4,6 +4,7 @@ package all
 import (
 	_ "verif/worlds/iso"
 	_ "verif/worlds/join"
+	_ "verif/worlds/radio"
 	_ "verif/worlds/reg"
 	_ "verif/worlds/smoke"
 )
